@@ -234,7 +234,14 @@ static int new_packet(int sk_fd, int can_socket) {
             can_id |= CAN_RTR_FLAG;
         }
 
-        if (can_variant == AVTP_CAN_FD) {
+        // A message without the FDF bit is a classic frame, also in FD mode
+        if (can_variant == AVTP_CAN_FD && !Avtp_Can_GetFdf((Avtp_Can_t*)acf_pdu)
+                && can_payload_length > CAN_MAX_DLEN) {
+            fprintf(stderr, "Error: CAN payload does not fit into a CAN frame.\n");
+            return 0;
+        }
+
+        if (can_variant == AVTP_CAN_FD && Avtp_Can_GetFdf((Avtp_Can_t*)acf_pdu)) {
             // Flags belong to one message: do not carry them over to the next
             frame.fd.flags = 0;
             if (Avtp_Can_GetBrs((Avtp_Can_t*)acf_pdu)) {
